@@ -142,6 +142,18 @@ func implCLI(env *Env, op Op) Result {
 	case "cli.compare":
 		files = a[7:]
 		argv = []string{"regex", "compare", string(a[6])}
+	case "cli.compareOut":
+		files = a[8:]
+		argv = []string{"regex", "compare", string(a[7])}
+		if string(a[0]) == "1" {
+			argv = append([]string{"-o", "github"}, argv...)
+		}
+	case "cli.compareAllOut":
+		files = a[7:]
+		argv = []string{"regex", "compare", "-a"}
+		if string(a[0]) == "1" {
+			argv = append([]string{"-o", "github"}, argv...)
+		}
 	case "cli.run":
 		files = a[14:]
 		argv = renderInvocation(a)
@@ -200,6 +212,10 @@ func implCLI(env *Env, op Op) Result {
 			so = c.stdout
 		}
 		out = append(out, so)
+	}
+	if op.Name == "cli.compareOut" || op.Name == "cli.compareAllOut" {
+		// everything the command prints on standard output (the side-by-side display of the two expressions included)
+		return Result{Status: "ok", Out: append(out, c.stdout)}
 	}
 	if op.Name == "cli.compareAll" || op.Name == "cli.compare" {
 		// the verdicts, in the order printed (the difference display is not part of the model)
@@ -405,11 +421,15 @@ func cliCmdOps(ct *crsTree, argv []string) []Op {
 	case joined == "regex update -a":
 		return []Op{{"cli.updateAll", append(append([][]byte{}, cfg...), files...)}}
 	case joined == "regex compare -a":
-		return []Op{{"cli.compareAll", append(append([][]byte{[]byte("0")}, cfg...), files...)}}
+		return []Op{{"cli.compareAll", append(append([][]byte{[]byte("0")}, cfg...), files...)},
+			{"cli.compareAllOut", append(append([][]byte{[]byte("0")}, cfg...), files...)}}
 	case joined == "-o github regex compare -a":
-		return []Op{{"cli.compareAll", append(append([][]byte{[]byte("1")}, cfg...), files...)}}
+		return []Op{{"cli.compareAll", append(append([][]byte{[]byte("1")}, cfg...), files...)},
+			{"cli.compareAllOut", append(append([][]byte{[]byte("1")}, cfg...), files...)}}
 	case len(argv) == 3 && argv[0] == "regex" && argv[1] == "compare" && argv[2] != "-a":
-		return []Op{{"cli.compare", append(append(append([][]byte{}, cfg...), []byte(argv[2])), files...)}}
+		return []Op{{"cli.compare", append(append(append([][]byte{}, cfg...), []byte(argv[2])), files...)},
+			{"cli.compareOut", append(append(append([][]byte{[]byte("0")}, cfg...), []byte(argv[2])), files...)},
+			{"cli.compareOut", append(append(append([][]byte{[]byte("1")}, cfg...), []byte(argv[2])), files...)}}
 	}
 	return nil
 }
